@@ -1,3 +1,4 @@
+#include <cfloat>
 #include <iostream>
 #include <sstream>
 #include <cstdio>
@@ -432,6 +433,20 @@ void Matcher::init_hmap(void)
     }
 }
 
+// Cosine of the cap used to collect candidate triangles around a point.  For
+// radii below ~1e-5 degree 1-cos(r) is only a few units in the last place, so
+// the rounding of cos() can shrink the cap by a sizeable fraction of its radius
+// and neighbours just across a triangle boundary are never looked at.  The cap
+// is therefore made a few ulps larger; the candidates are still tested against
+// the true separation afterwards.
+static inline double cover_cosine(double radius_radians) {
+    double d = cos(radius_radians) - 8*DBL_EPSILON;
+    if (d < -1.0) {
+        d = -1.0;
+    }
+    return d;
+}
+
 PyObject* Matcher::match(PyObject* ra_array, // all in degrees
                          PyObject* dec_array,
                          PyObject* radius_array, // degrees
@@ -475,7 +490,7 @@ PyObject* Matcher::match(PyObject* ra_array, // all in degrees
     double rad=0, d=0;
     if (nrad == 1) {
         rad = *(double *) PyArray_GETPTR1((PyArrayObject *) radius_array, 0);
-        d = cos( rad*D2R );
+        d = cover_cosine( rad*D2R );
     }
 
     npy_intp ninput = PyArray_SIZE((PyArrayObject *) ra_array);
@@ -487,7 +502,7 @@ PyObject* Matcher::match(PyObject* ra_array, // all in degrees
 
         if (nrad > 1) {
             rad = *(double *) PyArray_GETPTR1((PyArrayObject *) radius_array, i_input);
-            d = cos( rad*D2R );
+            d = cover_cosine( rad*D2R );
         }
 
         // Find the triangles around this point
